@@ -551,6 +551,22 @@ Section Model.
         end
     end.
 
+  (** ** Histories with any number of crashes: a block is either added, or the process dies at
+      point (c, j) while adding it and the directory is reopened. *)
+  Inductive hevent := HAdd (b : blk) | HCrash (b : blk) (c j : nat).
+  Definition hblk (e : hevent) : blk := match e with HAdd b => b | HCrash b _ _ => b end.
+
+  Fixpoint run_hist (l : ledger) (h : list hevent) : res ledger :=
+    match h with
+    | [] => Ok l
+    | HAdd b :: r => run_hist (fst (add_block l b)) r
+    | HCrash b c j :: r =>
+        match crash_add l b c j with
+        | Err e => Err e
+        | Ok dk => match reopen dk with Err e => Err e | Ok l' => run_hist l' r end
+        end
+    end.
+
   (** ** Observables (ledger.GetCurrentBlockHeight, GetCurrentBlockHash, GetStateMerkleRoot at the
       current height, GetBlockRootWithNewTxRoots for a probe leaf, the whole persisted state). *)
   Definition state_root_at (l : ledger) (h : N) : option hash :=
